@@ -37,6 +37,10 @@ func ParseTransaction(input []byte) (Transaction, error) {
 	if err != nil {
 		return nil, fmt.Errorf(unableToParseTransactionErrFmt, err)
 	}
+	if segments := compactSegments(input); segments != 0 && segments != 3 {
+		// jws.Parse ignores everything after the third segment of a compact JWS, but it is part of the transaction reference
+		return nil, transactionValidationError("JWS compact serialization must consist of exactly 3 segments")
+	}
 	if len(message.Signatures()) == 0 {
 		return nil, transactionValidationError("JWS does not contain any signature")
 	} else if len(message.Signatures()) > 1 {
@@ -221,4 +225,24 @@ func isAlgoAllowed(algo jwa.SignatureAlgorithm) bool {
 		}
 	}
 	return false
+}
+
+// compactSegments returns the number of dot-separated segments of a JWS in compact serialization, or 0 for the JSON serialization.
+func compactSegments(input []byte) int {
+	for _, c := range input {
+		if c == ' ' || c == '\t' || c == '\r' || c == '\n' {
+			continue
+		}
+		if c == '{' {
+			return 0
+		}
+		break
+	}
+	segments := 1
+	for _, c := range input {
+		if c == '.' {
+			segments++
+		}
+	}
+	return segments
 }
